@@ -936,6 +936,13 @@ def gen(tier, rng, shard, nshards):
         payload, _ = guard_payload(rng, prefix=bytes(pre))
         for rep in range(4):                                   # one per file kind
             yield f"guard-early-marker-valid{rep}", payload
+        # degenerate masked configurations: constant / 2- / 3-periodic / all-zero bytes (a single distinct n-gram for some key
+        # lengths, so `most_common(2)` has ONE entry) with a checksum that matches no candidate: guard metadata alone, ValueError from from_*
+        for dname, mb in (("const", bytes([0x41]) * 6144), ("per2", bytes([0x41, 0x42]) * 3072), ("per3", b"abc" * 2048), ("zero", bytes(6144)),
+                          ("2e", bytes([0x2E]) * 6144)):
+            gc = H17.guard_config(H17.guard_settings((5, 6), 0x01020304, rng), b"")
+            mg = bytes(a ^ 0x8A ^ b for a, b in zip(gc, mb[::-1]))
+            yield f"guard-degenerate-{dname}", mb + mg + C.rbytes(rng, 9)
         # area with odd guard configurations
         key = H17.make_key(rng, 4)
         cfg, _ = H17.make_cfg(rng, 60)
